@@ -91,7 +91,26 @@ def gen_sentence(r, size):
         words[k] = word_spec(words[k]["name"], words[k]["cod"],
                              dom=[(r.choice(BASIC), 0) for _ in range(r.randint(1, 2))])
         tags = ["word_with_dom"]
+    elif p < 0.40 and target == [("s", 0)]:
+        # the words reduce to s but the EMPTY type is requested explicitly (`Ty()` is falsy in
+        # Python: a front-end that treats it as "no target given" would answer with an s-typed
+        # parse); the property demands codomain = the requested target of whatever is returned
+        target = []
+        tags = ["empty_target_requested_for_s_sentence"]
+    if tags == ["backwards"] and not target:
+        tags = ["backwards_to_empty_target"]
     return words, target, tags
+
+
+def fixed_sentences():
+    """Always run: the subject-verb-object sentence (reduces to s) and a sentence that reduces
+    to the empty type, each requested with target s and with the explicit empty target."""
+    nn, ss = ("n", 0), ("s", 0)
+    svo = [word_spec("Alice", [nn]), word_spec("loves", [("n", 1), ss, ("n", -1)]),
+           word_spec("Bob", [nn])]
+    unit = [word_spec("a", [nn]), word_spec("b", [("n", 1), ("s", -1)]), word_spec("c", [ss])]
+    return [(svo, [ss], ["fixed"]), (svo, [], ["empty_target_requested_for_s_sentence"]),
+            (unit, [], ["backwards_to_empty_target"]), (unit, [ss], ["fixed"])]
 
 
 def eager_oracle(d, words, target):
@@ -593,7 +612,9 @@ def run(tier, seed, replay=None):
     thorough = tier == "thorough"
     rep.rule = (
         "eager/brute: word sequences built backwards from a reduction of the target (insert "
-        "adjacent adjoint pairs, cut into words), 30%% perturbed; non-trivial = a parse with >= 2 "
+        "adjacent adjoint pairs, cut into words), 30%% perturbed, plus s-sentences and unit-sentences "
+        "requested with the explicit empty target Ty() (eager_parse and brute_force; codomain is "
+        "checked against the REQUESTED target); non-trivial = a parse with >= 2 "
         "cups. cfg: random grammars over 2-6 symbols, recorded shuffles; non-trivial = >= 1 "
         "sentence with >= 3 productions. b2r_*: slash types nested to depth <= %d with composite "
         "(and, in a ~10%% share, empty) left and right sides; non-trivial = some side of the rule "
@@ -645,6 +666,7 @@ def compare(rep, stream, case, line, real, model):
 def stream_eager(rep, drv, rng, n, thorough):
     from discopy.grammar.pregroup import eager_parse
     cases = [gen_sentence(rng, 10 if thorough else 6) for _ in range(n)]
+    cases += fixed_sentences()
     lines = ["eager_parse %s %s" % (tok_ty(t), " ".join([str(len(ws))] + [tok_box(w) for w in ws]))
              for ws, t, _ in cases]
     answers = ask_all(drv, lines)
@@ -687,7 +709,20 @@ def stream_brute(rep, drv, rng, n, thorough):
             vocab = [word_spec("A", [nn]), word_spec("v", [("n", 1), ss, ("n", -1)]),
                      word_spec("j", [("n", 1), ss])][:rng.randint(1, 3)]
             t = [ss]
+            q = rng.random()
+            if q < 0.3:
+                t = []          # explicit empty target over a vocabulary whose sentences are s-typed
+            elif q < 0.45:      # a vocabulary with sentences of the empty type, empty target
+                vocab = [word_spec("a", [nn]), word_spec("b", [("n", 1)]),
+                         word_spec("c", [("n", 1), ss, ("s", 1)])][:rng.randint(2, 3)]
+                t = []
         cases.append((vocab, t, rng.randint(1, 14 if thorough else 8), rng.randint(1, 5)))
+    nn, ss = ("n", 0), ("s", 0)
+    classic = [word_spec("A", [nn]), word_spec("v", [("n", 1), ss, ("n", -1)]),
+               word_spec("j", [("n", 1), ss])]
+    cases.append((classic, [], 8, 5))        # always run: s-typed sentences exist, Ty() requested
+    cases.append((classic, [ss], 8, 5))
+    cases.append(([word_spec("a", [nn]), word_spec("b", [("n", 1)])], [], 4, 3))
     try:
         for vocab, t, k, take in cases:
             words = [real_word(w) for w in vocab]
@@ -722,6 +757,7 @@ def stream_brute(rep, drv, rng, n, thorough):
             compare(rep, "brute_force", dict(vocab=vocab, target=t, entries=entries, take=take),
                     line, real, model)
             rep.count("brute:yields:%d" % (len(got) if not isinstance(got, str) else -1))
+            rep.count("brute:target:%s" % ("empty" if not t else "s" if t == [("s", 0)] else "other"))
             nt = False
             if not isinstance(got, str):
                 for d in got:
